@@ -14,9 +14,9 @@ Definition names : list string :=
 Definition uids : list N := [0; 1; 2; 10; 62; 63].
 Definition chk_uname (uid : N) (nm : string) : bool :=
   Nat.eqb (length (pad16 nm)) 16 &&
-  exch_eqb (one_exchange "set_username" [arg "userid" uid; ("username", PStr nm)] (RBytes [0]))
+  exch_ok "set_username" [arg "userid" uid; ("username", PStr nm)] (RBytes [0])
            (mkReq 6 69 0 (uid :: pad16 nm)) (Ok PNone)
-  && exch_eqb (one_exchange "get_username" [arg "userid" uid] (RBytes (0 :: pad16 nm)))
+  && exch_ok "get_username" [arg "userid" uid] (RBytes (0 :: pad16 nm))
               (mkReq 6 70 0 [uid]) (Ok (PBytes (pad16 nm))).
 Lemma uname_table : forallb (fun uid => forallb (chk_uname uid) names) uids = true.
 Proof. vm_cast_no_check (eq_refl true). Qed.
@@ -59,9 +59,9 @@ Definition wd_state (w : wd) (s : store) : store :=
   put (if w_stop w then s1 else put s1 (K_WDRUN, 0, 0) [0]) (K_WDINIT, 0, 0) [1].
 
 Definition chk_wd (w : wd) : bool :=
-  exch_eqb (one_exchange "set_watchdog_timer" [("config", wd_config w)] (RBytes [0]))
+  exch_ok "set_watchdog_timer" [("config", wd_config w)] (RBytes [0])
            (mkReq 6 36 0 (wd_request w)) (Ok PNone)
-  && exch_eqb (one_exchange "get_watchdog_timer" [] (RBytes (0 :: wd_reply w))) (mkReq 6 37 0 []) (Ok (wd_result w)).
+  && exch_ok "get_watchdog_timer" [] (RBytes (0 :: wd_reply w)) (mkReq 6 37 0 []) (Ok (wd_result w)).
 
 Definition base : wd := mkWd 4 false true 1 2 3 16 88 2.
 Definition bsel : list N := [0; 1; 2; 127; 128; 254; 255].
@@ -125,33 +125,33 @@ Proof. vm_compute. reflexivity. Qed.
 
 Opaque one_exchange call bmc_handle.
 
-Lemma write_read_watchdog s w : List.In w wd_cases ->
+Lemma write_read_watchdog s w : is_supported "set_watchdog_timer" = true -> is_supported "get_watchdog_timer" = true -> List.In w wd_cases ->
   get s (K_WD, 0, 0) = [0; 0; 0; 0; 0; 0] -> get s (K_WDRUN, 0, 0) = [0] ->
   exists r1 r2,
     call "set_watchdog_timer" [("config", wd_config w)] s = (r1, wd_state w s) /\ same r1 (Ok PNone) /\
     call "get_watchdog_timer" [] (wd_state w s) = (r2, wd_state w s) /\ same r2 (Ok (wd_result w)).
 Proof.
-  intros Hw H1 H2.
+  intros Sw Sr Hw H1 H2.
   pose proof (table1 chk_wd wd_cases wd_table w Hw) as C. unfold chk_wd in C. apply andb_true_iff in C as [W R].
   pose proof (table1 wd_small wd_cases wd_cases_small w Hw) as S. unfold wd_small in S.
   apply andb_true_iff in S as [S S4]. apply andb_true_iff in S as [S S3]. apply andb_true_iff in S as [S1 S2].
   apply N.ltb_lt in S1, S2, S3, S4.
   destruct (wd_bmc_one w S1 S2 S3 S4 s H1 H2) as [BW BR].
-  exact (write_then_read "set_watchdog_timer" "get_watchdog_timer" _ _ s _ _ _ _ _ _ _ W BW R BR).
+  exact (write_then_read "set_watchdog_timer" "get_watchdog_timer" _ _ s _ _ _ _ _ _ _ Sw Sr W BW R BR).
 Qed.
 
-Lemma write_read_username s uid nm : List.In uid uids -> List.In nm names ->
+Lemma write_read_username s uid nm : is_supported "set_username" = true -> is_supported "get_username" = true -> List.In uid uids -> List.In nm names ->
   let s1 := put s (K_UNAME, uid, 0) (pad16 nm) in
   exists r1 r2,
     call "set_username" [arg "userid" uid; ("username", PStr nm)] s = (r1, s1) /\ same r1 (Ok PNone) /\
     call "get_username" [arg "userid" uid] s1 = (r2, s1) /\ same r2 (Ok (PBytes (pad16 nm))).
 Proof.
-  intros Hu Hn s1.
+  intros Sw Sr Hu Hn s1.
   pose proof (table2 (fun nm uid => chk_uname uid nm) uids names uname_table uid nm Hu Hn) as C.
   cbv beta in C. unfold chk_uname in C. apply andb_true_iff in C as [C R]. apply andb_true_iff in C as [L W].
   apply Nat.eqb_eq in L.
   assert (Hlt : uid < 64) by (destruct Hu as [<- | [<- | [<- | [<- | [<- | [<- | []]]]]]]; lia).
   assert (BR : bmc_handle s1 (mkReq 6 70 0 [uid]) = (s1, RBytes (0 :: pad16 nm))).
   { rewrite (bmc_get_uname _ uid Hlt). unfold s1. rewrite get_put_same. reflexivity. }
-  exact (write_then_read "set_username" "get_username" _ _ s s1 _ _ _ _ _ _ W (bmc_set_uname s uid _ L Hlt) R BR).
+  exact (write_then_read "set_username" "get_username" _ _ s s1 _ _ _ _ _ _ Sw Sr W (bmc_set_uname s uid _ L Hlt) R BR).
 Qed.
